@@ -48,6 +48,11 @@ FAMILIES: Dict[str, Tuple[str, List[str]]] = {
     "unreach": ("S: x ?0 ; A: ?1 A | B ; B: ?2 | -", ["x", "y", "A", "B"]),
     # an alternative made only of nullable non-terminals (not literally empty), listed after an explicit one
     "nullalt": ("S: A ?0 | ?3 ; A: ?1 | B ; B: ?2 | -", ["x", "y", "z", "-"]),
+    # alternatives with a common prefix of two symbols whose remainders start alike but are not equivalent (the conflict lives
+    # in the parser's own suffix symbol; with a conflict-free verdict the language must still be exact)
+    "suffixconflict": ("S: ?2 y A | ?2 y B ; A: ?0 ; B: ?0 ?1 ; C: x | -", ["x", "y", "z", "C"]),
+    # a token that the tokenizer skips used as a terminal: such a production never matches, and it is no recursion
+    "skiptok": ("S: A SPACE S | ?0 S | - ; A: ?1 | -", ["x", "y", "A"]),
     # a plain WORD next to a keyword made of a WORD
     "kwword": ("S: z ?0 | WORD ?1 | ?2 ; A: WORD | z A | -", ["x", "z", "WORD", "A", "S", "-"]),
     # a symbol that derives only the empty string, at the head of a production
